@@ -307,6 +307,15 @@ package keeper
 //@ func (Keeper).InitGenesis
 //@   flag noframe
 //@   flag pure=NewWrappedConsKeyFromHex,ToTmProtoKey,ToConsAddr
+// every other collection of the document is handed to the setter of its own collection, unchanged
+//@   before[C18.oig.opt]      SetAllOptedInfo requires arg2 == state.OptStates
+//@   before[C18.oig.opusd]    SetAllOperatorUSDValues requires arg2 == state.OperatorUSDValues
+//@   before[C18.oig.avsusd]   SetAllAVSUSDValues requires arg2 == state.AVSUSDValues
+//@   before[C18.oig.slash]    SetAllSlashStates requires arg2 == state.SlashStates
+//@   before[C18.oig.prevkeys] SetAllPrevConsKeys requires arg2 == state.PreConsKeys
+//@   before[C18.oig.removals] SetAllOperatorKeyRemovals requires arg2 == state.OperatorKeyRemovals
+//@   ensures[C18.oig.all] defined(res_SetAllOptedInfo_0) && defined(res_SetAllOperatorUSDValues_0) && defined(res_SetAllAVSUSDValues_0) &&
+//@        defined(res_SetAllSlashStates_0) && defined(res_SetAllPrevConsKeys_0) && defined(res_SetAllOperatorKeyRemovals_0)
 //@   flag havoc=setOperatorConsKeyForChainIDUnchecked,SetAllOptedInfo,SetAllOperatorUSDValues,SetAllAVSUSDValues,SetAllSlashStates,SetAllPrevConsKeys,SetAllOperatorKeyRemovals
 //@ loop #1
 //@   invariant -1 <= rangeindex && rangeindex < len(state.Operators)
